@@ -315,8 +315,32 @@ impl Prop for C16 {
             match exec::load(text) {
                 Loaded::Err(e) => {
                     let d = format!("{:?}", e);
-                    if d.contains("Check(") {
+                    let want = if name.starts_with("redeclare") {
+                        "DuplicateGlobalVariable"
+                    } else if name.starts_with("hide") {
+                        "CannotHideGlobalVariable"
+                    } else {
+                        "CannotSetGlobalVariable"
+                    };
+                    // the diagnostic must render (plain and pretty) and name the global
+                    let rendered = catch(|| format!("{}\n{}", e, e.display_pretty(std::path::Path::new("rules.tsg"), text)));
+                    match rendered {
+                        Err(p) => {
+                            out.violation("C16:static-rule-render-panic", &format!("{}: {}: {}", name, p.location, p.message), json!({"dsl": text}));
+                            return;
+                        }
+                        Ok(r) => {
+                            if !r.contains("rules.tsg:") {
+                                out.violation("C16:static-rule-render", &format!("{}: the pretty diagnostic does not cite the file: {}", name, r), json!({"dsl": text}));
+                                return;
+                            }
+                        }
+                    }
+                    if d.contains("Check(") && d.contains(want) {
                         out.feat(&format!("static:{}", name));
+                    } else if d.contains("Check(") {
+                        // rejected by another static rule: the property only asks for rejection
+                        out.feat(&format!("static_other_rule:{}", name));
                     } else {
                         out.violation("C16:static-rule-wrong-error", &format!("{}: rejected by the parser instead of the global rules: {}", name, d), json!({"dsl": text}));
                     }
